@@ -606,7 +606,9 @@ static void pair_body(Run &r, PairJob &pj, Ctx &x)
 	nlibblk = 0;
 	Sys s(&pj.tally);
 	r.hint("storage creation");
+	asan_error();
 	if (!s.init(pj.ka, pj.kb)) { r.violation(std::string("create|") + kname[pj.ka] + "|failed", "storage could not be created"); return; }
+	if (asan_error()) { r.violation("create|memory", fmt("creating A=%s B=%s: AddressSanitizer reported an invalid memory access", kname[pj.ka], kname[pj.kb])); ledger_reset(); nlibblk = 0; return; }
 	std::vector<size_t> done;      // op instances executed so far
 	auto where = [&]() {
 		std::string w = fmt("A=%s(cap %zu) B=%s(cap %zu): A:=%s B:=%s", kname[pj.ka], s.a.cap, kname[pj.kb], s.b.cap, cdesc(al.contents[ia]).c_str(), cdesc(al.contents[ib]).c_str());
@@ -748,11 +750,10 @@ void mc_jobs(Tier t, std::vector<std::string> &jobs)
 {
 	std::vector<int> bk;
 	// A runs through every storage kind; B (source / second target of copies) through one storage per distinct inline capacity
-	if (t == Quick) bk = { EMB16, NEW64, NEW256, ITEM32 };
+	if (t == Quick) bk = { EMB16, ITEM32, NEW256 };
 	else bk = { EMB16, NODE64, NEW32, NEW64, CXXNODE, NEW128, NODE256, NEW256 };
 	for (int a = 0; a < NKINDS; ++a) for (int b : bk) jobs.push_back(std::string("A=") + kname[a] + ",B=" + kname[b]);
 	jobs.push_back("alloc");
-	if (getenv("C16_DEV_JOBS")) { std::vector<std::string> f; for (auto &j : jobs) if (j.find(getenv("C16_DEV_JOBS")) != std::string::npos) f.push_back(j); jobs = f; }
 }
 
 static void declare(Run &r, bool pair)
